@@ -1,6 +1,7 @@
 package main
 
 import (
+	"time"
 	"bytes"
 	"encoding/json"
 	"fmt"
@@ -54,6 +55,15 @@ func runC13(idx int, rng *rand.Rand, tier string) []Case {
 	for i := range all {
 		all[i] = genResult(rng, uint64(i), "atk", rng.Intn(4) == 0)
 	}
+	if idx%2 == 1 {
+		// a dense attack: requests start within two seconds and take up to ten, so the request that
+		// ends last is usually not the one that started last
+		base := time.Unix(1700000000+int64(rng.Intn(1e6)), 0).UTC()
+		for i := range all {
+			all[i].Timestamp = base.Add(time.Duration(rng.Int63n(2e9)))
+			all[i].Latency = time.Duration(rng.Int63n(1e10))
+		}
+	}
 	var files []string
 	var ins [][]int64
 	var fileEncs []string
@@ -96,7 +106,7 @@ func runC13(idx int, rng *rand.Rand, tier string) []Case {
 		closers = append(closers, fh)
 		d := vegeta.DecoderFor(fh)
 		if d == nil {
-			panic("no decoder for generated file " + f)
+			continue // format detection refuses a well-formed file: its records are then missing from the output, which the checker sees
 		}
 		decs = append(decs, d)
 	}
